@@ -5,6 +5,8 @@
 (*                                                one per input class)                    *)
 (*   {"ev":"emit","out":hex,"cls":class,"aux":str,"p":process,"h":handle,"inst":primitive,"k":n} *)
 (*                                                one randomized call of the real code  *)
+(*        key ids of a manager whose draw loop is scripted also carry "draws": every value the   *)
+(*        random source returned during the call (Freshness!DrawVerdict)                           *)
 (*   {"ev":"end","n":count}                       the history of the key is complete    *)
 (* Every emit is Freshness!Emit with the fields RandomFields cuts out of the logged      *)
 (* output; NoRepeat is judged after every call, the uniformity conditions at "end", both  *)
@@ -41,7 +43,10 @@ EmitEv(e) ==
                  cls  == IF "cls" \in DOMAIN e THEN e.cls ELSE "all"
              IN /\ F!LayoutOK(mon["all"], vals) /\ cls \in DOMAIN mon
                 /\ mon' = F!EmitFamily(mon, cls, vals)
-                /\ bad' = F!FamilyRepeatVerdict(mon')
+                /\ bad' = IF F!FamilyRepeatVerdict(mon') # <<>> \/ "draws" \notin DOMAIN e THEN F!FamilyRepeatVerdict(mon')
+                          ELSE \* key ids with observed draws: ids as (manager, id) values, unavailable = handed out before this call
+                               LET tag(h) == BytesToHex(aux \o <<0>> \o HexToBytes(h))
+                               IN F!DrawVerdict([i \in DOMAIN e.draws |-> tag(e.draws[i])], tag(e.out), mon["all"].fs[2].seen)
 
 EndEv(e) ==
   /\ UNCHANGED <<mon, cur>>
